@@ -3,8 +3,8 @@ from vlib.core import Stage
 
 ID = "C16"
 STAGES = [
-    Stage("lu", "p16_sparselu", "plain", {"quick": 20000, "thorough": 120000}),
-    Stage("lu-asan", "p16_sparselu", "asan", {"quick": 3000, "thorough": 15000}, offset=10000000),
+    Stage("lu", "p16_sparselu", "plain", {"quick": 20000, "thorough": 160000}),
+    Stage("lu-asan", "p16_sparselu", "asan", {"quick": 3000, "thorough": 20000}, offset=10000000),
 ]
 THRESHOLDS = {
     # max over rows i and right-hand sides of |b_i - sum_j A_ij x_j| / ((|L||U||x|)_i + |b_i|), L and U from a dense
